@@ -155,6 +155,7 @@ pub(crate) const K_TRYFROM: u8 = 28; // try_allocate_from(host, count)
 pub(crate) const K_COMMIT_HEADER: u8 = 29; // commit_header (off = l1 offset, len = l1 entries in the header)
 pub(crate) const K_FLUSH_ENTRIES: u8 = 30; // flush_cache_entries(evicted) (len = number of entries)
 pub(crate) const K_GET_L1: u8 = 31; // get_l1_entry(split)
+pub(crate) const K_GET_RB_FAIL: u8 = 32; // get_refblock failed (off = host cluster)
 pub(crate) const K_TRYALLOC: u8 = 14; // try_alloc_from_rb_slice (off,len = granted run; len 0 = None)
 
 const NOREC: Rec = Rec { kind: K_NONE, entry: 0, off: 0, len: 0, buf_start: 0, flags: 0 };
@@ -443,6 +444,9 @@ pub(crate) struct KEnv {
     pub rt_entry: RefTableEntry,
     pub l2_slice: Option<KHandle<L2Table>>,
     pub rb_slice: Option<KHandle<RefBlock>>,
+    pub rb_slice2: Option<KHandle<RefBlock>>,
+    pub rb_key2: usize,
+    pub fail_get_rb: Cell<bool>,
     /// host offset the allocator shim hands out
     pub alloc_off: u64,
     pub alloc_cnt: usize,
@@ -483,6 +487,9 @@ impl KEnv {
             rt_entry: RefTableEntry(0),
             l2_slice: None,
             rb_slice: None,
+            rb_slice2: None,
+            rb_key2: 0,
+            fail_get_rb: Cell::new(false),
             alloc_off: 0,
             alloc_cnt: 0,
             cache_dirty: Cell::new(false),
@@ -643,7 +650,17 @@ impl KEnv {
     pub fn k_get_reftable_entry(&self, _rt_idx: usize) -> RefTableEntry {
         self.rt_entry
     }
-    pub fn k_get_refblock(&self, _cls: &HostCluster, _rt_e: &RefTableEntry) -> KResult<&KHandle<RefBlock>> {
+    pub fn k_get_refblock(&self, cls: &HostCluster, _rt_e: &RefTableEntry) -> KResult<&KHandle<RefBlock>> {
+        // two-slice harnesses: the slice after the modelled one is `rb_slice2`
+        if let Some(s2) = self.rb_slice2.as_ref() {
+            if self.fail_get_rb.get() {
+                self.rec(Rec { kind: K_GET_RB_FAIL, off: cls.0, ..NOREC });
+                return Err(KErr);
+            }
+            if cls.rb_slice_key(&self.info) == self.rb_key2 {
+                return Ok(s2);
+            }
+        }
         Ok(self.rb_slice.as_ref().unwrap())
     }
     pub fn k_mark_new_cluster(&self, cluster: u64) {
